@@ -354,7 +354,7 @@ class SigmaString(SigmaType):
 
     def __add__(self, other: "SigmaString" | str | SpecialChars | Placeholder) -> "SigmaString":
         s = self.__class__()
-        if isinstance(other, self.__class__):
+        if isinstance(other, SigmaString):  # any Sigma string, the result keeps the class of the left operand
             s.s = self.s + other.s
         elif isinstance(other, (str, SpecialChars, Placeholder)):
             s.s = self.s + [other]
@@ -856,10 +856,15 @@ class SigmaRegularExpression(SigmaType):
         """
         Replace all occurrences of string part matching regular expression with placeholder.
         """
-        return [
-            SigmaRegularExpression(str(sigmastr), self.flags)
-            for sigmastr in self.regexp.replace_placeholders(callback)
-        ]
+        result = []
+        for sigmastr in self.regexp.replace_placeholders(callback):
+            regexp = SigmaRegularExpression(str(sigmastr), self.flags)
+            if sigmastr.contains_placeholder():
+                # Placeholders handed back by the callback were printed as %name% above. They must
+                # stay placeholders to be replaced by a later transformation or refused in conversion.
+                regexp.insert_placeholders()
+            result.append(regexp)
+        return result
 
 
 @dataclass
